@@ -122,6 +122,10 @@ class _CoordinateKey(SortOrderKey, Locatable):
                 "'Locatable'" % record.__class__.__name__
             )
         chromosome = record.chromosome
+        if chromosome is not None:
+            # a chromosome is a name: compare it as text whatever type a
+            # scheme gave it (numeric names are typed as integers)
+            chromosome = str(chromosome)
         if contigs:
             try:
                 chromosome = contigs.index(chromosome)  # type: ignore
@@ -130,7 +134,11 @@ class _CoordinateKey(SortOrderKey, Locatable):
                     "Could not find contig '%s' in list of contigs: %s"
                     % (chromosome, ", ".join(contigs))
                 )
-        Locatable.__init__(self, chromosome, record.start, record.end)
+        # positions are numbers: read the text of a scheme-less file as such
+        start, end = (
+            int(v) if isinstance(v, str) else v for v in (record.start, record.end)
+        )
+        Locatable.__init__(self, chromosome, start, end)
 
     def __cmp__(self, other: '_CoordinateKey') -> int:  # type: ignore[override]
 
@@ -252,11 +260,20 @@ class SortOrderChecker:
         return self.__iadd__(record)
 
     def __iadd__(self, record: Locatable) -> 'SortOrderChecker':
-        if self._last_record and self._sort_f:
-            rec_key = self._sort_f(record)
-            last_rec_key = self._sort_f(self._last_record)
-            if rec_key < last_rec_key:
-                raise ValueError(f"Records out of order: {self._last_record} {record}")
+        if self._sort_f:
+            try:
+                rec_key = self._sort_f(record)
+            except KeyError:
+                # a record that lost a coordinate column (non-strict reading of
+                # a malformed line) cannot be keyed: it is neither in nor out
+                # of order, keep comparing the records that can be keyed
+                return self
+            if self._last_record is not None:
+                last_rec_key = self._sort_f(self._last_record)
+                if rec_key < last_rec_key:
+                    raise ValueError(
+                        f"Records out of order: {self._last_record} {record}"
+                    )
         self._last_record = record
         return self
 
